@@ -348,6 +348,64 @@ fn wide_int_payload(rng: &mut Rng) -> (Vec<Tok>, &'static str) {
     )
 }
 
+/// "integers of any width": an integer literal that fits no 64-bit type, in IF_DATA that nothing
+/// describes. It either passes through with its value intact or is diagnosed (load fails or logs
+/// a problem); it is never silently changed.
+fn huge_int_in_ifdata_case(rng: &mut Rng, rec: &mut Recorder) {
+    let base: i128 = *rng.pick(&[
+        1i128 << 64,
+        (1i128 << 64) + 1,
+        100_000_000_000_000_000_001,
+        1_000_000_000_000_000_000_000_000_000_007,
+        -(1i128 << 63) - 1,
+        -10_000_000_000_000_000_000_000_003,
+        (1i128 << 100) + 12345,
+    ]);
+    let v = if rng.coin() { base } else { base + i128::from(rng.below(1000) as u32) * base.signum() };
+    let hex = v > 0 && rng.chance(1, 4);
+    let lit = if hex { format!("0x{v:X}") } else { format!("{v}") };
+    let site = rng.below(3);
+    let ifd = format!("/begin IF_DATA VX_HUGE {lit} after /end IF_DATA");
+    let text = match site {
+        0 => format!("ASAP2_VERSION 1 71\n/begin PROJECT p \"\"\n/begin MODULE m \"\"\n{ifd}\n/end MODULE\n/end PROJECT\n"),
+        1 => format!("ASAP2_VERSION 1 71\n/begin PROJECT p \"\"\n/begin MODULE m \"\"\n/begin MEASUREMENT x \"\" UBYTE NO_COMPU_METHOD 0 0 0 255\n{ifd}\n/end MEASUREMENT\n/end MODULE\n/end PROJECT\n"),
+        _ => format!("ASAP2_VERSION 1 71\n/begin PROJECT p \"\"\n/begin MODULE m \"\"\n/begin IF_DATA VX_OUTER /begin BLK 1 {lit} \"s\" /end BLK /end IF_DATA\n/end MODULE\n/end PROJECT\n"),
+    };
+    rec.eval();
+    rec.nontrivial(text.as_bytes());
+    rec.bump("ifdata.integer_beyond_64_bit");
+    rec.bump(if hex { "ifdata.integer_beyond_64_bit.hex" } else { "ifdata.integer_beyond_64_bit.dec" });
+    for strict in [false, true] {
+        match load_str(&text, strict) {
+            Err((sig, detail)) => rec.violation(&sig, &detail, witness_text("integer beyond 64 bit in IF_DATA", &text, &lit)),
+            Ok(Err(_)) => rec.bump("ifdata.integer_beyond_64_bit.result.Err"),
+            Ok(Ok((a2l, log))) => {
+                let out = match write(&a2l) {
+                    Ok(o) => o,
+                    Err((sig, detail)) => {
+                        rec.violation(&sig, &detail, witness_text("integer beyond 64 bit in IF_DATA", &text, &lit));
+                        return;
+                    }
+                };
+                let preserved = vcommon::lexer::lex(&out)
+                    .map(|toks| toks.iter().any(|t| matches!(&t.val, vcommon::doc::Val::Int(x) if *x == v)))
+                    .unwrap_or(false);
+                if preserved {
+                    rec.bump("ifdata.integer_beyond_64_bit.result.preserved");
+                } else if !log.is_empty() {
+                    rec.bump("ifdata.integer_beyond_64_bit.result.diagnosed");
+                } else {
+                    rec.violation(
+                        "numeric literal silently changed: integer beyond 64 bit in uninterpreted IF_DATA",
+                        &format!("literal {lit} was accepted without a diagnostic and written as: {}", clip(out.split("IF_DATA").nth(1).unwrap_or(""), 200)),
+                        witness_text("integer beyond 64 bit in IF_DATA", &text, &lit),
+                    );
+                }
+            }
+        }
+    }
+}
+
 pub fn check_doc(rec: &mut Recorder, g: &Grammar, doc: &Doc, text: &str, origin: &str) -> bool {
     let mut expected = doc.clone();
     apply_position_rule(g, &mut expected);
@@ -411,6 +469,10 @@ pub fn run(args: &Args, rec: &mut Recorder) {
     run_cases(args, rec, n_bound + n_docs, crate::util::reset_budget, |rng, case, rec| {
         if case < n_bound {
             boundary_case(&g, rng, rec, &bounds[case as usize]);
+            return None;
+        }
+        if case % 40 == 11 {
+            huge_int_in_ifdata_case(rng, rec);
             return None;
         }
         if case % 20 == 7 {
@@ -492,6 +554,8 @@ pub fn run(args: &Args, rec: &mut Recorder) {
     rec.floor("accepted", 10);
     rec.floor("boundary.does_not_fit", 1);
     rec.floor("boundary.fits", 1);
+    rec.floor("ifdata.integer_beyond_64_bit.dec", 5);
+    rec.floor("docs.a2ml_float_beyond_f32", 3);
     for e in &g.elements {
         for t in &e.tags {
             if t != "A2L_FILE" {
